@@ -106,6 +106,10 @@ if 'C03' in CHECKS:
     CHECKS['C03']['jobs'] = {'quick': 6, 'thorough': 3}
     CHECKS['C03']['kani'] = [dict(_s, mem_gb=max(_s.get('mem_gb', 14), 20)) for _s in CHECKS['C03'].get('kani', [])]
 
+if 'C20' in CHECKS:
+    CHECKS['C20']['jobs'] = {'quick': 8, 'thorough': 6}
+    CHECKS['C20']['kani'] = [dict(_s, mem_gb=20) if _s['harness'].startswith('context_rules::') else _s for _s in CHECKS['C20'].get('kani', [])]
+
 # ---------------------------------------------------------------- quick-tier budget
 # Quick = the check run on every change (target: a few minutes per property on 16 cores). Harnesses matching these
 # patterns stay registered but run in the thorough tier only (converses, getter agreement, heavier shapes).
